@@ -25,4 +25,44 @@ CHECKS = {
             "oracle code (solid-angle winding, voxel sets) is independent of the library and was unit-checked",
         ],
     },
+    "C14": {
+        "subs": [
+            {"name": "spatial", "bin": "c14_spatial", "variant": "asan",
+             "quick": {"n": 16000, "size": 100}, "thorough": {"n": 3000000, "size": 150}},
+            {"name": "enum", "bin": "c14_spatial", "variant": "asan", "mode": "exhaustive",
+             "quick": {"level": 0}, "thorough": {"level": 1}},
+        ],
+        "assumptions": ["oracle = all-pairs scan with own closed-interval overlap; shared-endpoint skip rule re-implemented from its comment"],
+    },
+    "C10": {
+        "subs": [
+            {"name": "triangulate", "bin": "c10_triangulate", "variant": "asan",
+             "quick": {"n": 48000, "size": 100}, "thorough": {"n": 3000000, "size": 160}},
+        ],
+        "assumptions": ["inputs are epsilon-valid by construction (no filtering); CCW tolerance 2*eps as in the library's own debug check"],
+    },
+    "C11": {
+        "subs": [
+            {"name": "cross", "bin": "c11_cross", "variant": "asan",
+             "quick": {"n": 6400, "size": 100}, "thorough": {"n": 400000, "size": 150}},
+        ],
+        "assumptions": ["classification sampled at generated points farther than 64*tol+1e-9*scale from input edges"],
+    },
 }
+
+PBT = "property-based testing (rapidcheck byte-tape generators, shrinking, replay files)"
+MANIFEST_TEXT = {
+    "C01": {"text": "generated stateful programs of public operations; every returned Manifold judged by an independent closed-oriented-2-manifold predicate on its export, under ASan+UBSan",
+            "note": "sampled programs; predicate written from the statement (union-find over merge vectors, directed-edge multiset); valid arguments only",
+            "technique": PBT + " with a validity predicate + sanitizers"},
+    "C02": {"text": "generated lattice CSG programs judged against a voxel reference model (exact volume, every cell centre), and general-position Booleans/splits/plane cuts judged point-wise against the set formula with an independent solid-angle winding number plus inclusion-exclusion identities",
+            "note": "sampled, not exhaustive; classification at generated points away from surfaces",
+            "technique": PBT + " against a reference model and metamorphic volume identities"},
+    "C10": {"text": "constructively epsilon-valid polygon sets through Triangulate/TriangulateIdx with the statement itself as validity predicate (count, CCW, area, edge multiset), allowConvex on/off, triangulator reuse differential",
+            "note": "nesting depth <= 3; termination observed only as absence of a hang", "technique": PBT + " with a validity predicate"},
+    "C11": {"text": "arbitrary contour sets and 2D Boolean programs judged by an independent crossing-count winding number; lattice rectangles judged exactly against a pixel model",
+            "note": "sampled points; regularity checked by pairwise proper-crossing test for outputs <= 400 edges", "technique": PBT + " against reference models (winding number, pixel sets)"},
+    "C14": {"text": "Collider / 2D BVH / edge-pair broad phase / k-d tree compared with an all-pairs scan; small lattice configurations enumerated exhaustively",
+            "note": "exhaustive only for the 3-point lattice sub-space; sampled beyond", "technique": PBT + " differential against brute force, plus exhaustive enumeration of a small sub-space"},
+}
+NOT_CLAIMED = {}
